@@ -124,6 +124,32 @@ func genC06(t *rapid.T) C06Case {
 	if len(excl) > 0 && rapid.IntRange(0, 2).Draw(t, "second") == 0 {
 		defs2 := map[string]string{}
 		p.Files["include/g.ra"] = genWordFile(t, "g", defs2, true)
+		if rapid.Bool().Draw(t, "forcedefs") {
+			// both include files define `w` (differently), both list `tool{{w}}`, and the first exclude file excludes it
+			vals := rapid.Permutation([]string{"x+", "[0-9]", "ab", "_v2"}).Draw(t, "wvals")
+			setW := func(key, v string) {
+				lines := p.Files[key]
+				found := false
+				for i := range lines {
+					if lines[i].K == ragen.KDefine && lines[i].Name == "w" {
+						lines[i].T, found = v, true
+					}
+				}
+				if !found {
+					lines = append([]ragen.Line{{K: ragen.KDefine, Name: "w", T: v}}, lines...)
+				}
+				p.Files[key] = append(lines, ragen.Line{K: ragen.KEntry, T: "tool{{w}}"}, ragen.Line{K: ragen.KEntry, T: "keep"})
+			}
+			setW("include/f.ra", vals[0])
+			setW("include/g.ra", vals[1])
+			for _, dir := range []string{"exclude/", "include/"} {
+				k := dir + strings.TrimSuffix(excl[0], ".ra") + ".ra"
+				if l, ok := p.Files[k]; ok {
+					p.Files[k] = append(l, ragen.Line{K: ragen.KEntry, T: "tool{{w}}"})
+				}
+			}
+			lab["both-include-files-define-w"] = true
+		}
 		main = append(main, ragen.Line{K: ragen.KExcept, File: "g", Excl: excl})
 		lab["second-directive-same-exclude-files"] = true
 	}
